@@ -573,6 +573,12 @@ def check(run):
     from . import c10
     run.rules_run.append("R10h")
     run.rule(c10.r10h, run)
+    # shared with C02 / C05: every class validates with the constraints of its whole MRO; unknown keys of a typed addition
+    # policy are converted
+    from . import c02, c05
+    run.rules_run += ["R02f", "R05i"]
+    run.rule(c02.r02f, run)
+    run.rule(c05.r05i, run)
     # a recorded error must reach the context its owner flushes, otherwise the raw value is returned (shared with C10)
     from . import c10
     run.rules_run.append("R10e")
@@ -588,3 +594,6 @@ def check(run):
     run.rules_run += ["R10c", "R05h"]
     run.rule(c10.r10c, run)
     run.rule(c05.r05h, run)
+    from . import c10 as _c10
+    run.rules_run.append("R01f")
+    run.rule(_c10.option_defaults, run, "R01f", {'ignore_constraints': 'False', 'unresolved_types': "'throw'"}, "the default options do not waive the guarantee")
